@@ -237,6 +237,7 @@ def _leaves(x):
 
 
 NON_OBJECTS = [b"[1,2]", b'"str"', b"1", b"1.5", b"null", b"true", b"false", b"[]", b'[{"a":1}]', b"", b" ", b"{", b'{"a":1}x', b"\xff\xfe", b"{'a':1}",
+               b"\xff", b'{"a":"\xff"}', b'{"name":"caf\xe9"}', b'{"a":"\xe2\x82"}', b"\xc3(", b'["\xed\xa0\x80"]', b"1" * 5000, b"-" + b"9" * 4400, b"[" + b"1" * 5000 + b"]",
                b"NaN", b'"{\\"sub\\":\\"admin\\",\\"exp\\":99999999999}"', b'"{}"', b'"[]"', b'{"a":1}{"b":2}', b"\xef\xbb\xbf[1]", '["é"]'.encode("utf-16"), b"0x10", b"-", b'"\\ud800"']
 
 
@@ -251,6 +252,12 @@ def h_negative(ctx):
     if family == "jws":
         tok = c16.build_jws(alg, kind, "compact", {"alg": alg, "typ": "JWT"}, None, body)
         key = A.jkey(jwk, "dict", private=(jwk["kty"] == "oct"))
+        # the verifier may hold its key in a set; the token names no kid
+        held = ctx.choose("verifier_holds", ["a key", "a set of one"] + (["a set of two"] if mode == "tampered" else []))
+        if held != "a key":
+            from joserfc.jwk import KeySet
+            other = scen.key(kind, 1)
+            key = KeySet([key] + ([A.jkey(other, "dict", private=(other["kty"] == "oct"))] if held == "a set of two" else []))
         kw = {"algorithms": [alg]}
         if mode == "tampered":
             h, p, s = tok.split(".")
@@ -267,7 +274,7 @@ def h_negative(ctx):
             tok = ".".join(parts)
     r = call(jwt.decode, tok, key, **kw)
     vs = []
-    what = f"{family}/{alg} zip={zipv} payload {body[:30]!r} ({mode})"
+    what = f"{family}/{alg} zip={zipv} payload {body[:30]!r} ({mode})" + (f", the verifier holds {held}" if family == "jws" else "")
     if r.ok:
         if mode == "tampered":
             vs.append(viol(f"jwt.decode returns claims although the transport integrity check fails ({family})", what))
@@ -277,7 +284,7 @@ def h_negative(ctx):
         vs.append(viol(f"a payload that is not a JSON object is not reported as invalid-payload ({type(r.exc).__name__}, {family})", f"{what}: {r.exc!r}"))
     elif mode == "tampered" and isinstance(r.exc, InvalidPayloadError):
         vs.append(viol(f"the payload of a tampered token is parsed before the integrity check ({family})", f"{what}"))
-    return Outcome(f"{mode}:{'returned' if r.ok else 'rej:' + r.etype}", vs, nontrivial=(family, alg, body, zipv, mode))
+    return Outcome(f"{mode}:{'returned' if r.ok else 'rej:' + r.etype}", vs, nontrivial=(family, alg, body, zipv, mode, held if family == "jws" else None))
 
 
 # ------------------------------------------------------------------ what a caller does with a result must not reach later calls
